@@ -1096,3 +1096,32 @@ Theorem C02_newton_exact_stop_in_enclosure_real :
     env_le_on ereal_ops G (env_of ereal_ops lo) res /\ env_le_on ereal_ops G res (env_of ereal_ops u).
 Proof. exact newton_exact_stop_in_enclosure_real. Qed.
 Print Assumptions C02_newton_exact_stop_in_enclosure_real.
+
+(** * 9. "skip a zero pivot row" in the matrix right-hand-side pass of Semiring.solve_thunks
+    (what multi_solve runs when it eliminates a nonterminal with a self-loop from a component
+    of several non-scalar nonterminals: a[x,z] := a[x,z] star(a[z,z])).    Skipping when the whole
+    pivot row is zero is sound in every semiring; "some entry is zero" is the same test for one
+    column (vector and (n,1) right-hand sides) and wrong for two (Bool, 2 x 2 witness). *)
+Require Fggs.Model.Solve Fggs.Model.SolveSkip Fggs.Proofs.SolveSkip_proofs.
+
+Theorem C02_solve_skip_all_zero_sound :
+  forall {S} (o : sr_ops S) (eqb : S -> S -> bool), sr_ring o -> (forall x y, eqb x y = true -> x = y) ->
+  forall n m A B, SolveSkip.shaped o n m B ->
+    SolveSkip.solve_model_mat_skip o (SolveSkip.row_all_zero o eqb) n m A B = Solve.solve_model_mat o n m A B.
+Proof. exact (@SolveSkip_proofs.solve_skip_all_zero_sound). Qed.
+Print Assumptions C02_solve_skip_all_zero_sound.
+
+Theorem C02_solve_skip_some_zero_single_column :
+  forall {S} (o : sr_ops S) (eqb : S -> S -> bool), sr_ring o -> (forall x y, eqb x y = true -> x = y) ->
+  forall n A B, SolveSkip.shaped o n 1 B ->
+    SolveSkip.solve_model_mat_skip o (SolveSkip.row_some_zero o eqb) n 1 A B = Solve.solve_model_mat o n 1 A B.
+Proof. exact (@SolveSkip_proofs.solve_skip_some_zero_single_column). Qed.
+Print Assumptions C02_solve_skip_some_zero_single_column.
+
+Theorem C02_solve_skip_some_zero_refuted :
+  SolveSkip.shaped bool_ops 2 2 SolveSkip_proofs.skip_cex_B /\
+  Solve.solve_model_mat bool_ops 2 2 SolveSkip_proofs.skip_cex_A SolveSkip_proofs.skip_cex_B = [[true; false]; [true; false]] /\
+  SolveSkip.solve_model_mat_skip bool_ops (SolveSkip.row_some_zero bool_ops Bool.eqb) 2 2
+    SolveSkip_proofs.skip_cex_A SolveSkip_proofs.skip_cex_B = [[false; false]; [true; false]].
+Proof. exact SolveSkip_proofs.solve_skip_some_zero_refuted. Qed.
+Print Assumptions C02_solve_skip_some_zero_refuted.
